@@ -459,6 +459,11 @@ func writeAndCloseRules(c *Ctx) {
 		},
 	})
 	if loop != nil {
+		// plain helper functions split off WriteAndClose are interpreted in place (the header's own
+		// methods are modelled by the hooks)
+		base.AutoInline = func(h *FuncInfo) bool {
+			return h.Pkg == fi.Pkg && h.Decl.Recv == nil && !ast.IsExported(h.Decl.Name.Name)
+		}
 		x := NewExec(fl, base)
 		x.Run(newSt())
 		if x.Aborted != "" {
@@ -717,6 +722,7 @@ func readHeaderRules(c *Ctx) {
 		R.Check(chunkOK, "R08d", site+":chunkSize", pos, "success is dominated by chunkSize != 0", "a zero chunk size is accepted (the readers divide by it)", x.Trace()...)
 		R.Check(lastOK, "R08d", site+":lastOffset", pos, "success is dominated by last offset == file size", "a table that does not end at the file size is accepted (truncated or still being written file)", x.Trace()...)
 	}})
+	base.InlineOwnHelpers()
 	x := NewExec(c.P.FlowOf(fi), base)
 	x.Run(newSt())
 	R.Check(n >= 1, "R08d", c.Cfg+"casblob.readHeader:has-success", "", "readHeader has a success return", "none found")
